@@ -23,6 +23,7 @@ type errorExit struct {
 	guards []Atom
 	inits  []string // init statements of the enclosing ifs (`if _, ok := m[k]; ok`)
 	own    int      // how many of guards come from the innermost enclosing if / case
+	node   ast.Node // the statement or literal the exit was recognised at
 }
 
 // ownGuards counts the facts contributed by the innermost if / case around n.
@@ -88,13 +89,13 @@ func errorExits(p *Prog, fi *FuncInfo) []errorExit {
 		case *ast.ReturnStmt:
 			for _, r := range x.Results {
 				if isErrLit(r) {
-					out = append(out, errorExit{x.Pos(), lexicalGuards(pm, x, fi.Decl.Body), enclosingInits(pm, x, fi.Decl.Body), ownGuards(pm, x, fi.Decl.Body)})
+					out = append(out, errorExit{x.Pos(), lexicalGuards(pm, x, fi.Decl.Body), enclosingInits(pm, x, fi.Decl.Body), ownGuards(pm, x, fi.Decl.Body), x})
 					return true
 				}
 				if call, ok := ast.Unparen(r).(*ast.CallExpr); ok {
 					switch calleeName(info, call) {
 					case "internal/parser.duplicatedKeyError", "internal/parser.invalidValueError":
-						out = append(out, errorExit{x.Pos(), lexicalGuards(pm, x, fi.Decl.Body), enclosingInits(pm, x, fi.Decl.Body), ownGuards(pm, x, fi.Decl.Body)})
+						out = append(out, errorExit{x.Pos(), lexicalGuards(pm, x, fi.Decl.Body), enclosingInits(pm, x, fi.Decl.Body), ownGuards(pm, x, fi.Decl.Body), x})
 						return true
 					}
 				}
@@ -102,7 +103,7 @@ func errorExits(p *Prog, fi *FuncInfo) []errorExit {
 			// `return r, false` with r bound by `if r, ok := helper(…); !ok`
 			if len(x.Results) == 2 && exprStr(x.Results[1]) == "false" {
 				if _, isID := x.Results[0].(*ast.Ident); isID {
-					out = append(out, errorExit{x.Pos(), lexicalGuards(pm, x, fi.Decl.Body), enclosingInits(pm, x, fi.Decl.Body), ownGuards(pm, x, fi.Decl.Body)})
+					out = append(out, errorExit{x.Pos(), lexicalGuards(pm, x, fi.Decl.Body), enclosingInits(pm, x, fi.Decl.Body), ownGuards(pm, x, fi.Decl.Body), x})
 				}
 			}
 			// `return false, ParseError{…}, lines`
@@ -112,12 +113,14 @@ func errorExits(p *Prog, fi *FuncInfo) []errorExit {
 			if typeQName(info.TypeOf(x)) == "internal/parser.ParseError" && litField(x, "Err") != nil {
 				dup := false
 				for _, e := range out {
-					if e.pos <= x.Pos() && x.Pos() < e.pos+token.Pos(400) && sameStmt(pm, e.pos, x) {
-						dup = true
+					for cur := ast.Node(x); cur != nil; cur = pm[cur] {
+						if cur == e.node {
+							dup = true
+						}
 					}
 				}
 				if !dup {
-					out = append(out, errorExit{x.Pos(), lexicalGuards(pm, x, fi.Decl.Body), enclosingInits(pm, x, fi.Decl.Body), ownGuards(pm, x, fi.Decl.Body)})
+					out = append(out, errorExit{x.Pos(), lexicalGuards(pm, x, fi.Decl.Body), enclosingInits(pm, x, fi.Decl.Body), ownGuards(pm, x, fi.Decl.Body), x})
 				}
 			}
 		case *ast.AssignStmt:
@@ -126,13 +129,13 @@ func errorExits(p *Prog, fi *FuncInfo) []errorExit {
 				if len(x.Lhs) == len(x.Rhs) {
 					if id, isID := ast.Unparen(x.Rhs[i]).(*ast.Ident); isID && typeQName(info.TypeOf(id)) == "internal/parser.ParseError" {
 						if _, lhsSel := ast.Unparen(l).(*ast.SelectorExpr); !lhsSel {
-							out = append(out, errorExit{x.Pos(), lexicalGuards(pm, x, fi.Decl.Body), enclosingInits(pm, x, fi.Decl.Body), ownGuards(pm, x, fi.Decl.Body)})
+							out = append(out, errorExit{x.Pos(), lexicalGuards(pm, x, fi.Decl.Body), enclosingInits(pm, x, fi.Decl.Body), ownGuards(pm, x, fi.Decl.Body), x})
 						}
 					}
 				}
 				if sel, ok := ast.Unparen(l).(*ast.SelectorExpr); ok && sel.Sel.Name == "Error" && i < len(x.Rhs) {
 					if isErrLit(x.Rhs[i]) || typeQName(info.TypeOf(x.Rhs[i])) == "internal/parser.ParseError" {
-						out = append(out, errorExit{x.Pos(), lexicalGuards(pm, x, fi.Decl.Body), enclosingInits(pm, x, fi.Decl.Body), ownGuards(pm, x, fi.Decl.Body)})
+						out = append(out, errorExit{x.Pos(), lexicalGuards(pm, x, fi.Decl.Body), enclosingInits(pm, x, fi.Decl.Body), ownGuards(pm, x, fi.Decl.Body), x})
 					}
 				}
 			}
